@@ -130,3 +130,43 @@ func VerifH_C19_lokiValues() {
 		vf.Assert(last == want, "one-triple-per-event-built-from-that-event-only")
 	}
 }
+
+var verifCode int
+
+// replaces (*xhttp.Client).DoTimeout: answers with the status the harness picked
+func verifStubDoCode(c *xhttp.Client, method, contentType string, body []byte, timeout time.Duration, process func([]byte) error) (int, error) {
+	verifBodies = append(verifBodies, append([]byte(nil), body...))
+	if verifCode == 0 {
+		return 0, errVerif500 // no answer at all
+	}
+	if verifCode >= 300 {
+		return verifCode, errVerif500
+	}
+	return verifCode, nil
+}
+
+// C09 (sink side of "a failed send is retried"): the loki output reports a push as done only when loki took
+// it (204) or when the request itself is malformed (400: documented as not retried); every other answer -
+// authentication, rate limiting, time-outs, server errors, no answer - is reported as a failure so that the
+// batch is retried and, in the end, routed to the dead queue instead of being committed as sent.
+func VerifH_C09_lokiStatusCodes() {
+	codes := []int{204, 400, 0, 200, 401, 403, 404, 408, 413, 429, 500, 502, 503}
+	verifCode = codes[vf.Choose("status", len(codes))]
+	p := &Plugin{config: &Config{BatchSize_: 4, MessageField: "message", TimestampField: "ts"}, avgEventSize: 32, labels: map[string]string{}}
+	root := insaneJSON.Spawn()
+	_ = root.DecodeString(`{"ts":"1000","message":"m","k":"v"}`)
+	verifBodies = nil
+	vf.Advance(int64(time.Hour))
+	batch := pipeline.NewPreparedBatch([]*pipeline.Event{{Root: root, Size: 30}})
+	pipeline.VerifBatchMarkIterable(batch, true)
+	var wd pipeline.WorkerData
+	err := p.out(&wd, batch)
+	done := verifCode == 204 || verifCode == 400
+	if vf.Param("twin", 0) == 1 {
+		vf.Assert((err == nil) != done, "push-reported-done-only-for-204-or-400")
+		return
+	}
+	vf.Assert((err == nil) == done, "push-reported-done-only-for-204-or-400")
+	vf.Assert(len(verifBodies) == 1, "one-request-per-attempt")
+	vf.Reach("status-checked")
+}
